@@ -32,6 +32,8 @@ def setup():
 
 
 def main(argv):
+    import logging
+    logging.getLogger().addHandler(logging.NullHandler())   # the toolkit logs through the root logger
     if len(argv) >= 1 and argv[0] == "--setup":
         return setup()
     if len(argv) < 2:
